@@ -8,6 +8,7 @@ package mtproto
 import (
 	"context"
 	"crypto/rsa"
+	"encoding/binary"
 	"io"
 	"reflect"
 	"sync"
@@ -325,7 +326,7 @@ func (m *MTProto) readMsg() error {
 func (m *MTProto) processResponse(msg messages.Common) error {
 	var data tl.Object
 	var err error
-	if et, ok := m.expectedTypes.Get(msg.GetMsgID()); ok && len(et) > 0 {
+	if et := m.expectedTypesFor(msg.GetMsg()); len(et) > 0 {
 		data, err = tl.DecodeUnknownObject(msg.GetMsg(), et...)
 	} else {
 		data, err = tl.DecodeUnknownObject(msg.GetMsg())
@@ -416,6 +417,19 @@ messageTypeSwitching:
 // если в процессе решения появлиась еще одна ошибка, то она оборачивается в errors.Wrap, основная
 // игнорируется (потому что гарантируется, что обработка ошибки надежна, и параллельная ошибка это что-то из
 // ряда вон выходящее)
+// expectedTypesFor returns the decoder hints of the request that body answers. Hints are stored under
+// the msg_id of the request (see sendPacket); an rpc_result names that id in its req_msg_id field.
+func (m *MTProto) expectedTypesFor(body []byte) []reflect.Type {
+	const reqMsgIDEnd = tl.WordLen + tl.LongLen
+	if len(body) < reqMsgIDEnd || binary.LittleEndian.Uint32(body) != objects.CrcRpcResult {
+		return nil
+	}
+
+	reqMsgID := int(int64(binary.LittleEndian.Uint64(body[tl.WordLen:reqMsgIDEnd])))
+	et, _ := m.expectedTypes.Get(reqMsgID)
+	return et
+}
+
 func (m *MTProto) tryToProcessErr(e *ErrResponseCode) error {
 	switch e.Message {
 	case "PHONE_MIGRATE_X":
